@@ -1378,4 +1378,3 @@ package flamego
 //@   ensures has(r.namedRoutes, name)
 //@   loop 0 invariant vals != nil && fresh(vals) && 1 <= i && leaf != nil
 //@   loop 0 invariant forall k string :: has(vals, k) ==> exists j int :: 1 <= j && j < i && pairs[j - 1] == k
-
